@@ -22,7 +22,15 @@ import (
 // Rand is SplitMix64; every random choice of a harness derives from it.
 type Rand struct{ s uint64 }
 
-func NewRand(seed uint64) *Rand { return &Rand{s: seed*0x9E3779B97F4A7C15 + 0x1234567} }
+func NewRand(seed uint64) *Rand {
+	// scramble the seed first: with s = seed*GAMMA the stream of seed k+1 would be the stream of
+	// seed k shifted by one draw (shards would repeat each other)
+	z := seed + 0x632BE59BD9B4E019
+	z = (z ^ (z >> 30)) * 0xBF58476D1CE4E5B9
+	z = (z ^ (z >> 27)) * 0x94D049BB133111EB
+	z = z ^ (z >> 31)
+	return &Rand{s: z}
+}
 
 func (r *Rand) U64() uint64 {
 	r.s += 0x9E3779B97F4A7C15
